@@ -96,6 +96,10 @@ def placements(case):
     for _ in range(12):
         k = rng.randint(2, min(4, max(2, len(cands))))
         yield [("node", i, rng.choice(FAULTS)) for i in rng.sample(cands, min(k, len(cands)))]
+    # the same fault kind on several components at once (e.g. several consumers of one failing command)
+    for f in ("cpe", "cpe", "timeout", "boom"):
+        if len(cands) >= 2:
+            yield [("node", i, f) for i in rng.sample(cands, rng.randint(2, min(3, len(cands))))]
 
 
 def apply(case, placement, store_skips, flip_coe):
